@@ -2,7 +2,7 @@
 import math
 import gen
 from evalutil import *
-from props.C03 import edge_points
+from props.C03 import edge_points, azimuth_points
 
 ID = "C08"
 LEVEL = "other"
@@ -38,6 +38,21 @@ def _cells(ctx, rng, tier):
     for a in ctx.c(ops, tag="edgecells"):
         if ok(a):
             cells.append(int(a.split()[1], 16))
+    # cells where the meridian through a face centre crosses the face edge (azimuth 0 / pi special cases of the
+    # inverse projection meet the two-face computation of shared distortion vertices), finest resolutions
+    apts = azimuth_points(ctx)
+    if tier == "quick":
+        apts = rng.sample(apts, min(len(apts), 160))
+    ops = [f"ll2c {f2bits(la)} {f2bits(ln)} {r}" for la, ln in apts for r in ((15, 14) if tier == "quick" else (15, 14, 13, 12, 11))]
+    az = []
+    for a in ctx.c(ops, tag="azcells"):
+        if ok(a):
+            az.append(int(a.split()[1], 16))
+    az = list(dict.fromkeys(az))
+    nb.fetch(az)
+    for h in az:
+        cells.append(h)
+        cells += (nb.cache[h] or [])
     for _ in range(200 if tier == "quick" else 3000):
         cells.append(gen.rand_cell(rng))
     return list(dict.fromkeys(cells)), nb
